@@ -21,6 +21,14 @@ fn judge(inputs: &[String], rel: &[Rec], dbg: &[Rec], acc: &mut Acc) {
         let base = |c: &str| c.split(':').next().unwrap_or("").to_string();
         acc.count(&format!("class:{}", base(&r.class)), 1);
         acc.outcome(&r.hash);
+        if r.class == "hang" || d.class == "hang" {
+            acc.skip("no answer in time in one profile (termination is C03's subject)");
+            continue;
+        }
+        if r.class == "not-run" || d.class == "not-run" {
+            acc.skip("not run in one profile: its shard stopped after two hangs (C03 reports them)");
+            continue;
+        }
         if r.class != d.class || r.hash != d.hash {
             let sig = if r.class != d.class { format!("C17:outcome-kind-differs:debug={}:release={}", base(&d.class), base(&r.class)) } else { format!("C17:result-differs:{}", base(&r.class)) };
             acc.violate(Violation::new(
